@@ -12,7 +12,11 @@
               k = which call of that kind (from 1);  kind 0 none, 1 EIO, 2 ENOSPC, 3 SIGKILL on entry;
               res 0 ok, 1 error, 2 interrupted by the kill;
               loadres of target 1 = (0 equals_old equals_new) | (1)
-   which 3  commits vs saves  case = (table ((#stream off) ...)-per-job nsaves)     obs = (loadres ...) *)
+   which 3  commits vs saves  case = (table ((#stream off) ...)-per-job nsaves)     obs = (loadres ...)
+   which 4  overlapping saves case = (table ((#stream off) ...)-per-job K)          obs = ((loadres (done_j ...)) ...)
+              K goroutines each loop { commit the next offset of one of their jobs; save } on ONE offsetDB while a
+              checker keeps loading the file; done_j = commits of job j finished when the checker sampled them
+              AFTER its read; the last element is read after everything has stopped *)
 From Verif Require Import Base.Sx Base.GoSem Model.OffsetsFmt Model.FsCrash Model.OffsetsSnap Gen.SaveProtocol.
 
 (* ---- decoding ------------------------------------------------------------------------------------ *)
@@ -275,11 +279,66 @@ Definition c07_concurrent (case obs : sx) : verdict :=
   | _, _ => BadCase
   end.
 
+(* ---- which 4: overlapping saves of one offsetDB, a concurrent reader ----------------------------------- *)
+Fixpoint find_state_upto (sts : list smap) (i from upto : nat) (ss : list (bytes * Z)) : option nat :=
+  match sts with
+  | [] => None
+  | m :: r =>
+      if Nat.leb from i && Nat.leb i upto && streams_match m ss then Some i
+      else find_state_upto r (S i) from upto ss
+  end.
+
+(* per job: every read shows a state the job really had, not ahead of the commits done when the read
+   returned, never older than what an earlier read showed *)
+Fixpoint walk_reads (sts : list smap) (sid : N) (k : nat) (reads : list (list orow * list nat)) (from : nat) : option nat :=
+  match reads with
+  | [] => Some from
+  | (rows, done) :: r =>
+      match find_state_upto sts 0%nat from (nth k done 0%nat) (row_of rows sid) with
+      | Some i => walk_reads sts sid k r i
+      | None => None
+      end
+  end.
+
+Definition as_read (s : sx) : option (oload * list nat) :=
+  match s with
+  | SL [lr; dn] => match as_list as_nat dn with Some d => Some (as_load lr, d) | None => None end
+  | _ => None
+  end.
+
+Fixpoint number {A} (i : nat) (l : list A) : list (nat * A) :=
+  match l with [] => [] | x :: r => (i, x) :: number (S i) r end.
+
+Definition c07_overlap (case obs : sx) : verdict :=
+  match case, obs with
+  | SL [tbl; SL scripts; SZ _], SL reads =>
+      match as_list as_job tbl, opt_map (as_list as_stream) scripts, opt_map as_read reads with
+      | Some js, Some scs, Some rds =>
+          let all_loaded := forallb (fun r => match fst r with OLoaded _ => true | _ => false end) rds in
+          let rr := map (fun r : oload * list nat => (match fst r with OLoaded x => x | _ => [] end, snd r)) rds in
+          let per_job :=
+            forallb (fun kjs : nat * (job * list (bytes * Z)) =>
+                       let '(k, (j, script)) := kjs in
+                       match walk_reads (job_states (jstreams j) script) (jsid j) k rr 0%nat with
+                       | Some last => Nat.eqb last (length script)     (* the last read sees every commit *)
+                       | None => false
+                       end)
+                    (number 0%nat (combine js scs)) in
+          let no_strangers :=
+            forallb (fun r => forallb (fun row : orow => existsb (fun j => N.eqb (jsid j) (snd (fst (fst row)))) js) (fst r)) rr in
+          judge (all_loaded && Nat.eqb (length js) (length scs) && negb (Nat.eqb (length rds) 0) && per_job && no_strangers)
+                true (SL [])
+      | _, _, _ => BadCase
+      end
+  | _, _ => BadCase
+  end.
+
 Definition c07_entry (which : Z) (case obs : sx) : verdict :=
   match which with
   | 0 => c07_roundtrip case obs
   | 1 => c07_parse case obs
   | 2 => c07_fault case obs
   | 3 => c07_concurrent case obs
+  | 4 => c07_overlap case obs
   | _ => BadCase
   end.
